@@ -676,9 +676,11 @@ def _consumers(model, rep):
         if name.endswith("coo_matrix"):
             log.append(("coo", args, kwargs))
             return Mat(len(log) - 1)
+        if name in ("numpy.result_type", "numpy.promote_types"):
+            return ("common-type", tuple(args))
         if name in ("numpy.zeros_like", "numpy.zeros"):
             b = Buf()
-            log.append(("zeros", b, args))
+            log.append(("zeros", b, args, name, dict(kwargs)))
             return b
         if name == "numpy.add.at":
             log.append(("add.at", args))
@@ -731,6 +733,33 @@ def _consumers(model, rep):
        "vector", fn.path, "COOData.dot",
        "the matrix-vector product does not gather x at the column index "
        "and accumulate at the row index", fn.lineno)
+    # the product has one entry per matrix *row* and must be able to hold
+    # data * x: a vector made 'like x' has the length of x (the number of
+    # columns) and the dtype of x (integer x truncates, real x drops the
+    # imaginary part of a complex matrix)
+    zs = [x for x in log if x[0] == "zeros"]
+    okz = False
+    why = "no zero vector allocated"
+    if len(zs) == 1:
+        _, _, zargs, zname, zkw = zs[0]
+        dt = zkw.get("dtype")
+        if zname == "numpy.zeros_like":
+            why = "np.zeros_like(x): length and dtype of the input vector"
+        elif not zargs or zargs[0] not in ("R", ("R",)):
+            why = f"length {zargs[0] if zargs else None!r}, not the " \
+                  f"number of rows"
+        elif not (isinstance(dt, tuple) and dt and dt[0] == "common-type"
+                  and DATA in dt[1] and X in dt[1]):
+            why = f"dtype {dt!r}, not a common type of the data and x"
+        else:
+            okz = True
+    _v(rep, R2, okz, "COOData.dot:result-vector",
+       "the product is accumulated in a zero vector with one entry per row "
+       "in a common type of the data and x", fn.path, "COOData.dot",
+       f"the vector the product is accumulated in: {why} - for a "
+       f"rectangular matrix the result has the wrong length (or the "
+       f"accumulation raises), for integer x every contribution is "
+       f"truncated", fn.lineno)
     # ---- dense N-tensor
     fn = ccls.methods["toarray"]
     log.clear()
@@ -1122,6 +1151,12 @@ _AD = "skfem/autodiff/__init__.py"
 _CO = "skfem/assembly/form/coo_data.py"
 _FM = "skfem/assembly/form/form.py"
 MUTANTS = [
+    ("COO dot accumulates into a vector shaped like its argument",
+     (_CO, "        z = np.zeros(self.shape[0], dtype=np.result_type("
+      "self.data, x))", "        z = np.zeros_like(x)"), "C01-R2"),
+    ("COO dot accumulates into a float vector",
+     (_CO, "        z = np.zeros(self.shape[0], dtype=np.result_type("
+      "self.data, x))", "        z = np.zeros(self.shape[0])"), "C01-R2"),
     ("interpolate sanitises the coefficient vector to float64",
      ("skfem/assembly/basis/abstract_basis.py",
       "        if w.shape[0] != self.N:\n            raise ValueError("
